@@ -1538,6 +1538,24 @@ pub fn sc_framing_boundary(idx: u64, seed: u64, _t: bool) -> RunOut {
     })
 }
 
+/// Size of the finite space an index-decoded scenario enumerates (None for seeded scenarios).
+pub fn grid_space(name: &str, thorough: bool) -> Option<u64> {
+    Some(match name {
+        "sched-enum" => 7_500,
+        "call-enum" => 6u64.pow(if thorough { 6 } else { 4 }) * 6,
+        "framing-boundary" => 38 * 2 * 4 * 5 * 7,
+        "nonce-enum" => 15_552,
+        "fail-retry-enum" => 64 * 2 * 4 * 15,
+        "leak-enum" => 2_700,
+        "rekey-enum" => 15_552,
+        "rekey-enum-twin" => 5_184,
+        "boundary-sweep" => 512,
+        "auth-enum" => 768,
+        "stateless-enum" => 360,
+        _ => return None,
+    })
+}
+
 pub struct Scen {
     pub name: &'static str,
     pub f: ScenarioFn,
